@@ -299,6 +299,27 @@ fn gen_call(rng: &mut Rng, rep: &mut Report, enc: TextEncoding, doc: &AutoCommit
         let x = rng.below(4) as u8;
         let unmark = roll >= 90;
         let value = if unmark { ScalarValue::Null } else { mark_value(rng) };
+        // a second range of an existing (name, value), apart from the first: marks() must keep them apart
+        if !unmark && !marks.is_empty() && rng.chance(1, 4) {
+            let m = rng.pick(&marks);
+            let after: Vec<usize> = st.iter().cloned().filter(|p| *p > m.end).collect();
+            let before: Vec<usize> = st.iter().cloned().filter(|p| *p < m.start).collect();
+            let range = if after.len() >= 2 && rng.chance(1, 2) {
+                Some((after[0], *rng.pick(&after[1..])))
+            } else if before.len() >= 2 {
+                Some((*rng.pick(&before[..before.len() - 1]), before[before.len() - 1]))
+            } else if after.len() >= 2 {
+                Some((after[0], *rng.pick(&after[1..])))
+            } else {
+                None
+            };
+            if let Some((s, e)) = range {
+                rep.count("mark_same_value_apart");
+                rep.count("call_mark");
+                rep.count(&format!("expand_{:?}", expand_of(x)));
+                return Call::Mark(s, e, m.name().to_string(), m.value().clone(), x);
+            }
+        }
         let (mut s, mut e) = if !marks.is_empty() && rng.chance(2, 5) {
             // relative to an existing mark: inside it, overlapping its end, exactly it
             let m = rng.pick(&marks);
@@ -677,7 +698,7 @@ pub fn run(rng: &mut Rng, tier: &str, out: &str) -> Report {
     let mut rep = Report::new("marks");
     let mut cw_ = CaseWriter::new(out, "marks", HEADER, 1);
     let thorough = tier == "thorough";
-    let n_hist = if thorough { 120 } else { 12 };
+    let n_hist = if thorough { 80 } else { 12 };
     for hi in 0..n_hist {
         history(rng, &mut rep, &mut cw_, hi, thorough);
     }
